@@ -134,11 +134,13 @@ Bad(qq, c, r, v, same) ==
     [] c.op \in {"recv", "brecv"} ->
          LET mr == RecvRes(qq, c.h) IN
          CASE r = "Val"   -> IF mr = "Val" /\ RecvVal(qq, c.h) = v THEN {} ELSE {"C01C02"}
+           \* a stream that reports Empty (not overlapped) or the end while an accepted value is still due to it
+           \* has lost that value: joint ids with C01
            [] r = "Empty" -> IF c.op = "brecv" THEN {"C09"}
                              ELSE IF mr = "Empty" THEN {} ELSE IF mr = "Disc" THEN {"C07"}
-                             ELSE IF c.ov THEN {} ELSE {"C06"}
-           [] r = "Disc"  -> IF mr = "Disc" THEN {} ELSE {"C07"}
-           [] r = "End"   -> IF mr \in {"Empty", "Disc"} THEN {} ELSE IF c.ov THEN {} ELSE {"C06"}
+                             ELSE IF c.ov THEN {} ELSE {"C01C06"}
+           [] r = "Disc"  -> IF mr = "Disc" THEN {} ELSE IF mr = "Val" THEN {"C01C07"} ELSE {"C07"}
+           [] r = "End"   -> IF mr \in {"Empty", "Disc"} THEN {} ELSE IF c.ov THEN {} ELSE {"C01C06"}
            [] OTHER -> {"C09"}
     [] c.op = "unsub" -> IF Apply(qq, c)[2] = r THEN {} ELSE {"C11"}
     [] OTHER -> IF Apply(qq, c)[2] = r THEN {} ELSE {"C09"}
